@@ -209,10 +209,11 @@ func runSCIONServer(ctx context.Context, log *slog.Logger, mtrcs *scionServerMet
 				log.LogAttrs(ctx, slog.LevelError, "failed to write packet", slog.Any("error", err))
 				continue
 			}
-			_, id, err := udp.ReadTXTimestamp(conn)
+			_, id, err := udp.ReadTXTimestampWithID(conn, txid)
 			if err != nil {
 				log.LogAttrs(ctx, slog.LevelError, "failed to read packet tx timestamp",
 					slog.Any("error", err))
+				txid++
 			} else if id != txid {
 				log.LogAttrs(ctx, slog.LevelError, "failed to read packet tx timestamp",
 					slog.Uint64("id", uint64(id)), slog.Uint64("expected", uint64(txid)))
@@ -304,10 +305,11 @@ func runSCIONServer(ctx context.Context, log *slog.Logger, mtrcs *scionServerMet
 				log.LogAttrs(ctx, slog.LevelError, "failed to write packet", slog.Any("error", err))
 				continue
 			}
-			_, id, err := udp.ReadTXTimestamp(conn)
+			_, id, err := udp.ReadTXTimestampWithID(conn, txid)
 			if err != nil {
 				log.LogAttrs(ctx, slog.LevelError, "failed to read packet tx timestamp",
 					slog.Any("error", err))
+				txid++
 			} else if id != txid {
 				log.LogAttrs(ctx, slog.LevelError, "failed to read packet tx timestamp",
 					slog.Uint64("id", uint64(id)), slog.Uint64("expected", uint64(txid)))
@@ -555,11 +557,12 @@ func runSCIONServer(ctx context.Context, log *slog.Logger, mtrcs *scionServerMet
 				log.LogAttrs(ctx, slog.LevelError, "failed to write packet", slog.Any("error", err))
 				continue
 			}
-			txt1, id, err := udp.ReadTXTimestamp(conn)
+			txt1, id, err := udp.ReadTXTimestampWithID(conn, txid)
 			if err != nil {
 				txt1 = txt0
 				log.LogAttrs(ctx, slog.LevelError, "failed to read packet tx timestamp",
 					slog.Any("error", err))
+				txid++
 			} else if id != txid {
 				txt1 = txt0
 				log.LogAttrs(ctx, slog.LevelError, "failed to read packet tx timestamp",
